@@ -90,6 +90,19 @@ func NewTCPAllocation(config *AllocationConfig) *TCPAllocation {
 
 // Connect sends a Connect request to the turn server and returns a chosen connection ID.
 func (a *TCPAllocation) Connect(peer net.Addr) (proto.ConnectionID, error) {
+	var cid proto.ConnectionID
+	var err error
+	// As every other request: one answered 438 is repeated with the new nonce.
+	for range maxRetryAttempts {
+		if cid, err = a.connect(peer); !errors.Is(err, errTryAgain) {
+			break
+		}
+	}
+
+	return cid, err
+}
+
+func (a *TCPAllocation) connect(peer net.Addr) (proto.ConnectionID, error) {
 	setters := []stun.Setter{
 		stun.TransactionID,
 		stun.NewType(stun.MethodConnect, stun.ClassRequest),
@@ -117,6 +130,12 @@ func (a *TCPAllocation) Connect(peer net.Addr) (proto.ConnectionID, error) {
 	if res.Type.Class == stun.ClassErrorResponse {
 		var code stun.ErrorCodeAttribute
 		if err = code.GetFrom(res); err == nil {
+			if code.Code == stun.CodeStaleNonce {
+				a.setNonceFromMsg(res)
+
+				return 0, errTryAgain
+			}
+
 			return 0, fmt.Errorf("%s (error %s)", res.Type, code) //nolint // dynamic errors
 		}
 
@@ -269,7 +288,20 @@ func (a *TCPAllocation) dialErr(rAddr *net.TCPAddr) error {
 }
 
 // BindConnection associates the provided connection.
-func (a *TCPAllocation) BindConnection(dataConn *TCPConn, cid proto.ConnectionID) error { //nolint:cyclop
+func (a *TCPAllocation) BindConnection(dataConn *TCPConn, cid proto.ConnectionID) error {
+	var err error
+	// A request answered 438 is repeated with the new nonce, on the same
+	// connection: the server goes on reading requests from it.
+	for range maxRetryAttempts {
+		if err = a.bindConnection(dataConn, cid); !errors.Is(err, errTryAgain) {
+			break
+		}
+	}
+
+	return err
+}
+
+func (a *TCPAllocation) bindConnection(dataConn *TCPConn, cid proto.ConnectionID) error { //nolint:cyclop
 	msg, err := stun.Build(
 		stun.TransactionID,
 		stun.NewType(stun.MethodConnectionBind, stun.ClassRequest),
@@ -321,6 +353,12 @@ func (a *TCPAllocation) BindConnection(dataConn *TCPConn, cid proto.ConnectionID
 	case stun.ClassErrorResponse:
 		var code stun.ErrorCodeAttribute
 		if err = code.GetFrom(res); err == nil {
+			if code.Code == stun.CodeStaleNonce {
+				a.setNonceFromMsg(res)
+
+				return errTryAgain
+			}
+
 			return fmt.Errorf("%s (error %s)", res.Type, code) //nolint // dynamic errors
 		}
 
